@@ -76,6 +76,10 @@ pub fn near_miss_table() -> Vec<(&'static str, Reason)> {
         ("$['a\tb']", Reason::ControlChar),
         ("$[\"a\nb\"]", Reason::ControlChar),
         ("$[?@.a == 'a\u{0}']", Reason::ControlChar),
+        ("$[?@['a\u{1}b'] == 1]", Reason::ControlChar),
+        ("$[?1 == @[\"\t\"]]", Reason::ControlChar),
+        ("$[?$['a\n'] != @.a]", Reason::ControlChar),
+        ("$[?count(@.*) == $[\"\u{1f}\"]]", Reason::ControlChar),
         ("$['\\x']", Reason::BadEscape),
         ("$['\\u12']", Reason::BadEscape),
         ("$['\\U0041']", Reason::BadEscape),
@@ -125,7 +129,7 @@ pub fn near_miss_table() -> Vec<(&'static str, Reason)> {
 /// curated valid spellings: every escape form, every blank position, every number format...
 pub fn curated_valid() -> Vec<&'static str> {
     vec![
-        "$", "$.a", "$['a']", "$[\"a\"]", "$.a.b", "$.a['b'][\"c\"]", "$[0]", "$[-1]", "$[9007199254740991]", "$[-9007199254740991]", "$[1:2]", "$[1:2:3]", "$[:]", "$[::]", "$[1:]", "$[:2]", "$[::2]", "$[::-1]",
+        "$", "$.a", "$['a']", "$[\"a\"]", "$.a.b", "$.a['b'][\"c\"]", "$[0]", "$[-1]", "$[9007199254740991]", "$[-9007199254740991]", "$[1:2]", "$[1:2:3]", "$[-9007199254740991:]", "$[::-9007199254740991]", "$[-1000000000000000:2]", "$['a\\\\']", "$[\"\\\\\"]", "$[?@.dir == 'C:\\\\tmp\\\\']", "$[?@['k\\\\'] == 1]", "$[:]", "$[::]", "$[1:]", "$[:2]", "$[::2]", "$[::-1]",
         "$[ 1 : 2 : 3 ]", "$[1 :2: 3]", "$[\t1\n:\r2 ]", "$[:9007199254740991:-9007199254740991]", "$.*", "$[*]", "$..*", "$..[*]", "$..a", "$..['a']", "$..[0]", "$..[1:2]", "$..[?@.a]", "$[0,1]", "$[ 0 , 1 ]", "$['a','b']",
         "$[*,0,'a',1:2,?@.a]", "$ .a", "$\t.a", "$\n['a']", "$.a [0]", "$.a\r\n.b", "$[?@.a]", "$[? @.a]", "$[?(@.a)]", "$[?((@.a))]", "$[?!@.a]", "$[?! @.a]", "$[?!(@.a)]", "$[?! (@.a)]", "$[?@.a==1]", "$[?@.a == 1]",
         "$[?@.a\t==\n1]", "$[?1==@.a]", "$[?@.a!=1]", "$[?@.a<1]", "$[?@.a<=1]", "$[?@.a>1]", "$[?@.a>=1]", "$[?@.a=='b']", "$[?@.a==\"b\"]", "$[?@.a==true]", "$[?@.a==false]", "$[?@.a==null]", "$[?@.a==-0]", "$[?@.a==0.0]",
